@@ -559,7 +559,20 @@ def rule_com_variations(ctx):
             i0 = strip(ini[-1], casts=True) if ini else {}
             if i0.get('kind') == 'MemberExpr' and 'reb_variational_configuration' in qtype(strip(i0['inner'][0])):
                 idx_class[d['name']] = {'index': 'own', 'index_1st_order_a': 'a', 'index_1st_order_b': 'b'}.get(i0['name'])
-    anchor({'own', 'a', 'b'} <= set(idx_class.values()), 'locals read from var_config[v].index / index_1st_order_a / index_1st_order_b in reb_simulation_move_to_com')
+    # ... or base pointers into the particle array: struct reb_particle* var1a = particles + vc->index_1st_order_a; var1a[i]
+    base_class = {}
+    for d in walk(cfront.body(fn)):
+        if d.get('kind') == 'VarDecl' and 'init' in d and '*' in qtype(d) and 'reb_particle' in qtype(d):
+            ini = [c_ for c_ in d.get('inner', []) if c_.get('kind') not in ('FullComment',)]
+            i0 = strip(ini[-1], casts=True) if ini else {}
+            if i0.get('kind') == 'BinaryOperator' and i0.get('opcode') == '+':
+                l_, r_ = strip(i0['inner'][0], casts=True), strip(i0['inner'][1], casts=True)
+                if render(l_).replace('r.', '') == 'particles':
+                    if r_.get('kind') == 'MemberExpr' and 'reb_variational_configuration' in qtype(strip(r_['inner'][0])):
+                        base_class[d['name']] = {'index': 'own', 'index_1st_order_a': 'a', 'index_1st_order_b': 'b'}.get(r_['name'])
+                    elif r_.get('kind') == 'DeclRefExpr' and r_['referencedDecl']['name'] in idx_class:
+                        base_class[d['name']] = idx_class[r_['referencedDecl']['name']]
+    anchor({'own', 'a', 'b'} <= set(idx_class.values()) | set(base_class.values()), 'locals read from var_config[v].index / index_1st_order_a / index_1st_order_b in reb_simulation_move_to_com')
     # 1. no partial sums
     for f in all_loops:
         n += 1
@@ -596,6 +609,9 @@ def rule_com_variations(ctx):
         ma = re.match(r'^\(?\*?(\w+)\)?\.(\w+)$', txt)
         if ma and ma.group(1) in aliases:
             txt = aliases[ma.group(1)] + '.' + ma.group(2)
+        mb = re.match(r'^(\w+)\[\(?(\w+)\)?\]\.(\w+)$', txt)
+        if mb and mb.group(1) in base_class and mb.group(2) == lv:
+            return (base_class[mb.group(1)], mb.group(3))
         m_ = re.match(r'^(?:r\.)?particles\[\(?(\w+)(?:\+(\w+))?\)?\]\.(\w+)$', txt)
         if not m_ or m_.group(1) != lv:
             return None
@@ -634,7 +650,7 @@ def rule_com_variations(ctx):
         text = ' '.join(render(rhs) for lvn, op, rhs, ln in accs)
         for al_, full_ in aliases.items():
             text = re.sub(r'\b%s\b' % re.escape(al_), full_, text)
-        order = 2 if any(k_ in text for k_, c_ in idx_class.items() if c_ == 'a') else 1
+        order = 2 if any(re.search(r'\b%s\b' % re.escape(k_), text) for k_, c_ in list(idx_class.items()) + list(base_class.items()) if c_ == 'a') else 1
         found[order] += 1
 
         def leaf(pth, order=order, lv=lv):
